@@ -291,7 +291,7 @@ class Analyzer:
                     op(o.val[1])
                     for x in o.val[2]:
                         op(x)
-                elif o.kind == "bitcast":
+                elif o.kind in ("bitcast", "p2iconst"):
                     op(o.val)
         if inst.op == "phi":
             return out
@@ -424,6 +424,11 @@ class Analyzer:
             return self.gep(st, p, bty, [self.val(st, i) for i in idx])
         if k == "bitcast":
             return self.val(st, o.val)
+        if k == "p2iconst":
+            p = self.val(st, o.val)
+            if not isinstance(p, PtrV):
+                raise Broken("ptrtoint of non-pointer constant")
+            return IntV(64, p.off.lin, p.off.lo, p.off.hi, 0, None, p.glob or "null")
         if k == "null":
             return PtrV(None, self.cint(64, 0))
         raise Broken("operand kind %s" % k)
@@ -1425,6 +1430,8 @@ class Analyzer:
             st.trace.append((i.line, c.tv))
             return [self.goto(st, tgt)]
         out = []
+        expanded = []
+        split_seen = False
         for truth, tgt in ((True, t1), (False, t2)):
             for refs in self.refine(st, c.pred, truth):
                 s2 = st.fork()
@@ -1432,8 +1439,21 @@ class Analyzer:
                     self.apply(s2, refs)
                 except Infeasible:
                     continue
+                except Split as sp:
+                    # a refinement minted a symbol that asks for a case split: the split was raised on the fork, so it is re-raised
+                    # for the instruction as a whole with this branch decision in front of every case (the 'parted' marker first,
+                    # so that re-applying the refinement does not ask again)
+                    split_seen = True
+                    for case in sp.cases:
+                        marks = [c_ for c_ in case if c_[0] == "parted"]
+                        rest = [c_ for c_ in case if c_[0] != "parted"]
+                        expanded.append(marks + list(refs) + rest)
+                    continue
+                expanded.append(list(refs))
                 s2.trace.append((i.line, truth))
                 out.append(self.goto(s2, tgt))
+        if split_seen:
+            raise Split(expanded, "branch-refinement")
         self.res.stats["forks"] += max(0, len(out) - 1)
         if (trap_t or trap_f) and not any(s.block in self.trap_blocks for s in out):
             self.res.stats["trap_edges_dead"] += 1
@@ -1714,6 +1734,16 @@ class Analyzer:
         if k == 0:
             st.env[i.res] = a
             return
+        if k == a.w - 1:
+            # v >> (w-1) is the sign mask: decide the sign of v (this also tells the later uses of the mask what v is)
+            lo_, hi_ = st.rng(a)
+            if hi_ < 0:
+                st.env[i.res] = self.cint(a.w, -1)
+                return
+            if lo_ >= 0:
+                st.env[i.res] = self.cint(a.w, 0)
+                return
+            raise Split([[("lin", a.lin, None, -1)], [("lin", a.lin, 0, None)]], "sign-mask")
         r, _, _ = self.lowbits(st, a, k)
         st.env[i.res] = self.mk(st, a.w, a.lin.sub(r).div(1 << k), max(0, a.tz - k), clip=True)
 
@@ -1758,6 +1788,12 @@ class Analyzer:
                 st.env[i.res] = BoolV(None, ("and", a.pred, b.pred))
             return
         w = a.w
+        # an all-ones / all-zeros mask (the idiom v >> 63): decide it, then the operation is linear
+        for v_ in (a, b):
+            if isinstance(v_, IntV) and not v_.lin.is_const():
+                lo_, hi_ = st.rng(v_)
+                if lo_ == -1 and hi_ == 0:
+                    raise Split([[("lin", v_.lin, -1, -1)], [("lin", v_.lin, 0, 0)]], "mask")
         blo, bhi = st.rng(b)
         alo, ahi = st.rng(a)
         if alo == ahi and blo != bhi:
@@ -1770,6 +1806,14 @@ class Analyzer:
                 return
             if mask == 0:
                 st.env[i.res] = self.cint(w, 0)
+                return
+            if mask == 1 << (w - 1):
+                # x & sign_bit: the sign bit of x alone (decomposed through xor / and / or when x is such a combination)
+                sp = self.sign_pred(st, a.lin, w, 0) or ("lin", a.lin, -(1 << w), -1)
+                tv_ = self.eval_pred(st, sp)
+                if tv_ is None:
+                    raise Split(self.refine(st, sp, True) + self.refine(st, sp, False), "sign-bit")
+                st.env[i.res] = self.cint(w, -(1 << (w - 1)) if tv_ else 0)
                 return
             # contiguous run of ones [lb, hb)
             lb = tz_of(mask)
@@ -1818,6 +1862,12 @@ class Analyzer:
                 st.env[i.res] = BoolV(None, ("or", a.pred, b.pred))
             return
         w = a.w
+        # an all-ones / all-zeros mask (the idiom v >> 63): decide it, then the operation is linear
+        for v_ in (a, b):
+            if isinstance(v_, IntV) and not v_.lin.is_const():
+                lo_, hi_ = st.rng(v_)
+                if lo_ == -1 and hi_ == 0:
+                    raise Split([[("lin", v_.lin, -1, -1)], [("lin", v_.lin, 0, 0)]], "mask")
         alo, ahi = st.rng(a)
         blo, bhi = st.rng(b)
         if alo == ahi and blo == bhi:
@@ -1852,6 +1902,18 @@ class Analyzer:
         self.symdef[T("or", w, k1, k2)] = ("or", a.lin, b.lin, w)
         st.env[i.res] = self.fresh(st, w, T("or", w, k1, k2), lo, hi, min(a.tz, b.tz), deps=(a.lin, b.lin))
 
+    def unwrap_by_sign(self, st, v):
+        """a wrapped value (opaque symbol congruent to an exact form modulo 2^w) whose sign is known on this state equals the low
+        w-1 bits of the exact form, minus 2^(w-1) when negative: re-express it that way (shares the low-bit symbol with other code)"""
+        if not isinstance(v, IntV) or v.mlin is None:
+            return v
+        lo_, hi_ = st.rng(v)
+        if lo_ < 0 <= hi_:
+            return v
+        w = v.w
+        low_, _, _ = self.lowbits(st, v, w - 1)
+        return self.mk(st, w, low_ if lo_ >= 0 else low_.addc(-(1 << (w - 1))), clip=True)
+
     def x_xor(self, st, i):
         a = self.val(st, i.ops[0])
         b = self.val(st, i.ops[1])
@@ -1874,6 +1936,31 @@ class Analyzer:
         if alo == ahi and blo == bhi:
             st.env[i.res] = self.cint(w, alo ^ blo)
             return
+        # an all-ones / all-zeros mask (the idiom v >> 63): decide it, then the operation is linear
+        for v_ in (a, b):
+            if isinstance(v_, IntV) and not v_.lin.is_const():
+                lo_, hi_ = st.rng(v_)
+                if lo_ == -1 and hi_ == 0:
+                    raise Split([[("lin", v_.lin, -1, -1)], [("lin", v_.lin, 0, 0)]], "mask")
+        if blo == bhi == 0:
+            st.env[i.res] = self.unwrap_by_sign(st, a)
+            return
+        if alo == ahi == 0:
+            st.env[i.res] = self.unwrap_by_sign(st, b)
+            return
+        for x_, (cl_, ch_) in ((a, (blo, bhi)), (b, (alo, ahi))):
+            if cl_ == ch_ == -(1 << (w - 1)):
+                # x ^ sign_bit flips the sign bit: x - 2^(w-1) for x >= 0, x + 2^(w-1) for x < 0
+                xl_, xh_ = st.rng(x_)
+                if xl_ < 0 <= xh_:
+                    raise Split([[("lin", x_.lin, None, -1)], [("lin", x_.lin, 0, None)]], "sign-flip")
+                if x_.mlin is not None:
+                    # a wrapped value: its low w-1 bits are those of the exact form, the sign bit is the one just decided
+                    low_, _, _ = self.lowbits(st, x_, w - 1)
+                    st.env[i.res] = self.mk(st, w, low_.addc(-(1 << (w - 1))) if xl_ >= 0 else low_, clip=True)
+                    return
+                st.env[i.res] = self.mk(st, w, x_.lin.addc(-(1 << (w - 1))) if xl_ >= 0 else x_.lin.addc(1 << (w - 1)))
+                return
         if blo == bhi == -1:
             st.env[i.res] = self.mk(st, w, a.lin.neg().addc(-1))
             return
@@ -2085,6 +2172,12 @@ class Analyzer:
         ty = IR.resolve(i.ty, self.mod)
         if ty.kind != "int":
             raise Broken("load of non-integer: %s" % i.text)
+        ent_ = self.mod.globals.get(p.glob)
+        if ent_ is not None and ent_[1] is None and ent_[2] and ("private" in ent_[3] or "internal" in ent_[3]):
+            # a private constant with an `undef` initializer (the padding byte of an empty closure object): any value
+            sl_, sh_ = sgn_rng(ty.bits)
+            st.env[i.res] = self.fresh(st, ty.bits, T("undef", p.glob, i.line), sl_, sh_)
+            return
         esz, ebits, vals, gsz = self.flat_global(p.glob)
         if ebits != ty.bits:
             raise Broken("load type differs from global element type: %s" % i.text)
